@@ -17,7 +17,7 @@ import traceback
 def ctxkeys_for(cfg):
     from lv.universe import types as U
     from lv.rigs import driver as D
-    keys = sorted(D.lab_context(1, cfg['n']).keys())
+    keys = D.lab_context(1, cfg['n'])
     return [U.expected_ctx_keys(cfg['typ'][t - 1], t, keys) for t in range(1, cfg['n'] + 1)]
 
 
